@@ -30,7 +30,7 @@ var FamilyNames = []string{
 	"self", "wide-kids", "wide-filters", "deep-array", "deep-dict", "deep-content",
 	"acroform-loop", "xobject-loop", "type3-loop", "action-chain", "pattern-loop",
 	"parent-loop", "contents-array", "colorspace-chain", "huge-offsets",
-	"nest-function", "nest-action", "nest-colorspace", "presteps-chain", "objstm-filter", "xref-index-sum", "cmap-wide", "catalog-pages",
+	"nest-function", "nest-action", "nest-colorspace", "presteps-chain", "objstm-filter", "objstm-offsets", "xref-index-sum", "cmap-wide", "catalog-pages",
 }
 
 // wiringFamily builds a large wiring of one of the model's walkers and
@@ -468,6 +468,8 @@ func (fam *Family) build() ([]byte, error) {
 		return fam.buildSections(n)
 	case "objstm-filter":
 		return fam.buildObjStmFilter(n), nil
+	case "objstm-offsets":
+		return fam.buildObjStmOffsets(n), nil
 	case "xref-index-sum":
 		return fam.buildXRefIndexSum(n), nil
 	case "cmap-wide":
@@ -655,6 +657,42 @@ func (fam *Family) buildObjStmFilter(n int) []byte {
 	default:
 		container(10, []int{20, 21, 22}, "/Filter [/ASCIIHexDecode 30 0 R] /DecodeParms [null 31 0 R]")
 		container(11, []int{30, 31, 32}, "/DecodeParms 21 0 R /Filter /ASCIIHexDecode")
+	}
+	sx := a.xrefStream(9, ents, "/Root 1 0 R", fam.XS)
+	return a.finish(sx)
+}
+
+// buildObjStmOffsets: an object stream whose header pairs give offsets at
+// the ends of the integer ranges (alone and so that /First + offset wraps),
+// out of order, equal, or beyond the data; variants by size: /First right,
+// huge, zero, negative.  Every member is fetched.
+func (fam *Family) buildObjStmOffsets(n int) []byte {
+	a := newAsm("1.7")
+	a.obj(1, "<< /Type /Catalog /Pages 2 0 R >>")
+	a.obj(2, "<< /Type /Pages /Kids [3 0 R] /Count 1 >>")
+	a.obj(3, "<< /Type /Page /Parent 2 0 R /MediaBox [0 0 100 100] /Resources << >> >>")
+	ents := []xent{{num: 0, typ: 0}, {num: 1, typ: 1, off: a.offs[1]}, {num: 2, typ: 1, off: a.offs[2]}, {num: 3, typ: 1, off: a.offs[3]}}
+	extremes := []string{"9223372036854775807", "9223372036854775806", "9223372036854775000", "4611686018427387904", "18446744073709551615",
+		"9223372036854775808", "2147483647", "4294967296", "100000", "-1", "-9223372036854775808", "9223372036854775797", "9223372036854775790"}
+	// one extreme offset per container (one bad number may make the reader
+	// refuse the whole container), next to ordinary ones; Cyc: two of them
+	offs := []string{"0", extremes[n%len(extremes)], "11"}
+	if fam.Cyc {
+		offs = []string{"0", extremes[n%len(extremes)], extremes[(n+5)%len(extremes)], "11", "11"}
+	}
+	var head bytes.Buffer
+	for i, o := range offs {
+		fmt.Fprintf(&head, "%d %s ", 20+i, o)
+	}
+	body := "<< /V 1 >>\n<< /V 2 >> (three) 4 [5] /six\n"
+	first := fmt.Sprint(head.Len())
+	if n >= 30 {
+		first = []string{"9223372036854775807", "0", "-5", fmt.Sprint(head.Len() - 1), "9223372036854775000", "1"}[n%6]
+	}
+	a.stream(10, fmt.Sprintf("/Type /ObjStm /N %d /First %s", len(offs), first), "", append(head.Bytes(), body...))
+	ents = append(ents, xent{num: 10, typ: 1, off: a.offs[10]})
+	for i := range offs {
+		ents = append(ents, xent{num: 20 + i, typ: 2, stm: 10, idx: i})
 	}
 	sx := a.xrefStream(9, ents, "/Root 1 0 R", fam.XS)
 	return a.finish(sx)
